@@ -2124,14 +2124,32 @@ def _handle_assignment_ast(
 
         nodes.extend(tmp_nodes)
 
+        function_globals = ctx.setdefault("function_declared_globals", set())
         for idx, name in enumerate(left_names):
             vars_env[name] = evaluated_values[idx]
+            if name not in declared and name in function_globals:
+                declared.add(name)
             if name not in declared:
                 declared.add(name)
+                cpp_type = _cpp_type(inferred_types[idx])
+                if name in ctx.get("global_names", set()) and not is_global_scope:
+                    # declared ``global`` in this function: the variable lives at file
+                    # scope, the function only assigns it
+                    function_globals.add(name)
+                    globals_list.append(
+                        VarDecl(
+                            name=name,
+                            c_type=cpp_type,
+                            expr=_default_value_for_type(cpp_type),
+                            global_scope=True,
+                        )
+                    )
+                    nodes.append(VarAssign(name=name, expr=tmp_names[idx]))
+                    continue
                 nodes.append(
                     VarDecl(
                         name=name,
-                        c_type=_cpp_type(inferred_types[idx]),
+                        c_type=cpp_type,
                         expr=tmp_names[idx],
                         global_scope=False,
                     )
